@@ -15,7 +15,7 @@ from sim import core
 from sim.driver import Report
 
 PROP = "C12"
-TIERS = {"quick": {"pairs": 70, "envs": 9, "budget": 75.0}, "thorough": {"pairs": 900, "envs": 14, "budget": 1500.0}}
+TIERS = {"quick": {"pairs": 100, "envs": 7, "budget": 70.0}, "thorough": {"pairs": 1200, "envs": 12, "budget": 1500.0}}
 SCRATCH = "/dev/shm" if os.path.isdir("/dev/shm") else tempfile.gettempdir()
 E0 = {"route": "api", "heap": 0, "dir_seed": 0, "clock": "2001-02-03T04:05:06", "history": [], "cache": 0, "repeat": 1}
 ROUTES = ["api", "api_file", "cli_flags", "cli_config", "cli_mixed"]
@@ -235,7 +235,7 @@ def check(args):
         for j in range(nenv):
             if time.monotonic() > deadline:
                 break
-            env = gen_env(prng, srcs) if j else dict(E0, hashseed=0)
+            env = gen_env(prng, srcs) if (j or idx % 3) else dict(E0, hashseed=0)  # an exact repeat for every third pair
             if j == 1:
                 env = dict(E0, hashseed=prng.randrange(1, 1 << 31))  # hash seed alone
             if j == 2 and params.get("include_header"):
